@@ -238,6 +238,9 @@ var families = map[string]familyFn{
 	"values-str":  func(g *gen.G, r *recorder, maxNodes, maxSteps int) { valueFamily(g, r, maxNodes, 2) },
 	"paths": func(g *gen.G, r *recorder, maxNodes, maxSteps int) {
 		d := g.Doc(maxNodes)
+		if g.R.Intn(5) == 0 {
+			d = g.NsDoc(maxNodes) // prefixed elements and attributes: an unprefixed name test must not match them
+		}
 		e := g.Path(maxSteps)
 		o := xast.Opts{Abbrev: g.R.Intn(2) == 0, Space: " "}
 		for k := 0; k < 3; k++ {
